@@ -144,6 +144,9 @@ def run(ctx):
     for n in ([65535, 65536, 200000, 786000] if ctx.thorough else [65536, 786000]):
         for (c, m, z) in (sample[:3] if n < 700000 or ctx.thorough else sample[:1]):
             roundtrip(cr, c, m, z, payload(rng, "text" if z else "random", n), kind="large")
+    # the largest payloads an encode request can carry, compressible: the credential is small, so it fits a decode request
+    for n in ((1048536, 1048555, 1048556) if ctx.thorough else (1048556,)):
+        roundtrip(cr, 4, 5, 3, (b"largest compressible payload " * (n // 29 + 1))[:n], kind="largest-compressed")
     # TTLs, restrictions, identities
     for ttl in (0, 1, 299, 300, 301, 3599, 3600, 3601, 2 ** 31, 2 ** 32 - 1):
         roundtrip(cr, 4, 5, 0, b"ttl", ttl=ttl, kind="ttl")
